@@ -104,7 +104,8 @@ func (e *env3) observeOwn(m *member, predicted *vcommon.OrdMap, what string) {
 	if predicted != nil {
 		c.Eval(1)
 		if d := entriesDiff(m.t, predicted); d != "" {
-			e.violation("own-content", fmt.Sprintf("T%d after %s does not hold what an independent trie would: %s", m.id, what, d), e.witness(nil))
+			e.violation("own-content", fmt.Sprintf("T%d after %s does not hold what an independent trie would: %s", m.id, what, d),
+				e.witness(map[string]any{"trie": firstStr(m.t.String(), 6000)}))
 		}
 	}
 	m.want = mapFromEntries(m.t)
